@@ -367,6 +367,10 @@ class Program:
         f = call.func
         key = f.id if isinstance(f, ast.Name) else ("." + f.attr if isinstance(f, ast.Attribute) else None)
         params = self.signatures.get(key) if key else None
+        if params is None and isinstance(f, ast.Attribute) and isinstance(f.value, ast.Name) \
+                and f.value.id in self.package_module_aliases():
+            # a module-level function reached through the alias of a package module (`opr.f(..)`)
+            params = self.signatures.get(f.attr)
         out: Dict[str, ast.AST] = {}
         if params is not None:
             for i, a in enumerate(call.args):
@@ -376,6 +380,16 @@ class Program:
             if k.arg:
                 out[k.arg] = k.value
         return out
+
+    def package_module_aliases(self) -> Set[str]:
+        if not hasattr(self, "_pkg_aliases"):
+            al = set()
+            for m in self.modules.values():
+                for alias, target in m.imports.items():
+                    if target.startswith(PKG + ".") and target in self.modules:
+                        al.add(alias)
+            self._pkg_aliases = al
+        return self._pkg_aliases
 
     # --------------------------------------------------------------- lookups
     def module(self, short: str) -> Module:
